@@ -547,11 +547,37 @@ class C13(Property):
             except Exception:
                 return None
 
-        out, again, gates, gate_in, repaired = [], [], [], [], []
+        # the same event type in an ontology that was built the other way round: the property is created while its object
+        # type still has the default data type, the data type is set afterwards
+        from edxml.ontology import Ontology
+        from edxml.event import EDXMLEvent
+        late_o = Ontology()
+        late_o.create_event_source('/s/')
+        late_ot = late_o.create_object_type('o.t.p')
+        late_t = late_o.create_event_type('t')
+        late_t.create_property('p', 'o.t.p')
+        late_ot.set_data_type(DataType(dt))
+
+        def norm_late(value):
+            try:
+                ev = EDXMLEvent({'p': [value]}, event_type_name='t', source_uri='/s/')
+            except Exception:
+                return None
+            try:
+                late_t.normalize_event_objects(ev, ['p'])
+                r = sorted(ev['p'])
+                return {'ok': r[0]} if len(r) == 1 else 'err:size%d' % len(r)
+            except EDXMLEventValidationError:
+                return 'reject'
+            except Exception as ex:
+                return 'err:' + type(ex).__name__
+
+        out, again, gates, gate_in, repaired, late = [], [], [], [], [], []
         for n in case['inputs']:
             x = to_python(n)
             r = norm(x)
             out.append(r)
+            late.append(norm_late(n['v']) if n['t'] == 'str' else None)
             if isinstance(r, dict):
                 again.append(norm(r['ok']))
                 gates.append(gate(r['ok']))
@@ -564,7 +590,9 @@ class C13(Property):
             else:
                 gate_in.append(None)
                 repaired.append(None)
-        return {'out': out, 'again': again, 'gate': gates, 'gateIn': gate_in, 'repaired': repaired}
+        # normalizing through the event type is normalizing with the data type the object type has now
+        late = [None if (v is None or v == o_) else ['through the event type', v] for v, o_ in zip(late, out)]
+        return {'out': out, 'again': again, 'gate': gates, 'gateIn': gate_in, 'repaired': repaired, 'late': late}
 
     @staticmethod
     def repair(o, value):
@@ -627,11 +655,12 @@ class C13(Property):
                 repaired.append('undecided')
             else:
                 repaired.append('rejected')
-        return {'out': out, 'again': again, 'gate': gates, 'gateIn': gate_in, 'repaired': repaired}
+        return {'out': out, 'again': again, 'gate': gates, 'gateIn': gate_in, 'repaired': repaired, 'late': [None] * len(out)}
 
     def fill_undecided(self, case, obs, pred):
         for k in ('out', 'again', 'gate', 'gateIn', 'repaired'):
             pred[k] = [o if p == 'undecided' else p for o, p in zip(obs[k], pred[k])]
+        pred.setdefault('late', [None] * len(obs['out']))
         # everything downstream of an undecided output is undecided as well
         for i, (o, p) in enumerate(zip(obs['out'], pred['out'])):
             if o is p or (case['inputs'][i]['t'] == 'float'):
@@ -709,6 +738,11 @@ class C13(Property):
         return None, None
 
     def oracle(self, case, obs):
+        for i, n in enumerate(case['inputs']):
+            if obs.get('late') and obs['late'][i] is not None:
+                return ('data type %s, input %r: EventType.normalize_event_objects answers %r where the data type of the object type '
+                        'answers %r (the property was created before the object type got this data type)' % (
+                            case['dt'], n.get('v'), obs['late'][i][1], obs['out'][i]))
         for i, n in enumerate(case['inputs']):
             msg, flag = self.judge(case['dt'], n, obs['out'][i], obs['again'][i], obs['gate'][i], obs['repaired'][i])
             if msg is not None and flag is None:
